@@ -24,6 +24,8 @@ more.register(globals(), {"C09"}, ["branch_retry_kinds", "late_nested"], {"branc
 
 globals()["nested_inner_catch_retry_task"]._vf.tiers = ("thorough",)   # 1665 schedules: quick tier runs it under C06 only
 
+more.register(globals(), {"C09"}, ["map_in_map"], {"map_in_map": [("_o%d" % k, "omc == %d" % k) for k in range(3)]})
+
 
 # ---------------------------------------------------------------------------
 # One-step kernels (Engine A)
